@@ -150,7 +150,7 @@ def _gen_call_filters(rng, tier, i):
 
 def _call_with_filters(fn, a):
     from cnvlib import call
-    return call.do_call(a["cnarr"], None, a["method"], a["ploidy"], a["purity"], False, True, None, list(a["filters"]))
+    return call.do_call(a["cnarr"], None, a["method"], a["ploidy"], a["purity"], False, True, None, a["filters"])
 
 
 def _chk_call_order(args, res, old):
